@@ -526,8 +526,8 @@ def locate(fn, loc):
         c = hits[loc[3]]
         return ast.copy_location(ast.Constant(value=any(ast.unparse(a) == loc[2] for a in c.args)), c)
     if kind == "compif":
-        # first `if` condition of the nth list/set comprehension or generator in the function
-        comps = [n for n in ast.walk(fn) if isinstance(n, (ast.ListComp, ast.SetComp, ast.GeneratorExp))]
+        # first `if` condition of the nth list/set/dict comprehension or generator in the function
+        comps = [n for n in ast.walk(fn) if isinstance(n, (ast.ListComp, ast.SetComp, ast.DictComp, ast.GeneratorExp))]
         comps = [c for c in comps if c.generators and c.generators[0].ifs]
         if len(comps) <= loc[1]:
             raise Fail("%s: no filtered comprehension #%d" % (fn.name, loc[1]), fn)
